@@ -21,6 +21,7 @@ type bpeer struct {
 	log  *vLog
 	fr   refFramer
 
+	emitted  []refPacket // every packet passed to Transport.Write, delivered or failed
 	recv     []refPacket // every well-formed client packet, in arrival order
 	recvSeq  []int64     // log sequence number of each
 	frameErr error
@@ -41,7 +42,12 @@ func (p *bpeer) clientWrote(c *memConn, b []byte) error {
 	defer p.mu.Unlock()
 	if p.failWrite != nil {
 		if err := p.failWrite(b); err != nil {
-			p.log.add(c.id, "WRITE-FAIL", nil, err.Error())
+			if pk, _, derr := refDecodeOne(b); derr == nil {
+				p.log.add(c.id, "WRITE-FAIL", &pk, err.Error())
+				p.emitted = append(p.emitted, pk)
+			} else {
+				p.log.add(c.id, "WRITE-FAIL", nil, err.Error())
+			}
 			return err
 		}
 	}
@@ -51,6 +57,7 @@ func (p *bpeer) clientWrote(c *memConn, b []byte) error {
 		seq := p.log.add(c.id, "W", &pk, "")
 		p.recv = append(p.recv, pk)
 		p.recvSeq = append(p.recvSeq, seq)
+		p.emitted = append(p.emitted, pk)
 		if p.auto != nil {
 			p.auto(p, pk)
 		} else {
@@ -126,6 +133,12 @@ func (p *bpeer) received() []refPacket {
 	p.mu.Lock()
 	defer p.mu.Unlock()
 	return append([]refPacket{}, p.recv...)
+}
+
+func (p *bpeer) emittedPackets() []refPacket {
+	p.mu.Lock()
+	defer p.mu.Unlock()
+	return append([]refPacket{}, p.emitted...)
 }
 
 func (p *bpeer) receivedWithSeq() ([]refPacket, []int64) {
